@@ -82,9 +82,11 @@ def seeded(pid):
         if not (os.path.exists(meta) and os.path.exists(patch)):
             continue
         m = json.load(open(meta))
-        if m.get("property") != pid:
-            continue
-        out.append((d, patch, m.get("expect", "fire"), m.get("needle")))
+        if m.get("property") == pid:
+            out.append((d, patch, m.get("expect", "fire"), m.get("needle")))
+        elif pid in m.get("also_fire", []):
+            # a change seeded against another property that this check catches as well
+            out.append((d, patch, "fire", None))
     return out
 
 
